@@ -476,6 +476,25 @@ func EvalInt(v ssa.Value, env Env) (int64, error) {
 		return 0, fmt.Errorf("unsupported operator %s in %s", e.Op, cfgx.Expr(v))
 	case *ssa.Phi:
 		return 0, fmt.Errorf("phi in threshold expression %s", cfgx.Expr(v))
+	case *ssa.Call:
+		// a straight-line arithmetic helper of the repository: evaluate its return expression with the
+		// parameters bound to the evaluated arguments
+		callee := e.Call.StaticCallee()
+		if callee != nil && !e.Call.IsInvoke() && len(callee.Blocks) == 1 && len(callee.Params) == len(e.Call.Args) {
+			blk := callee.Blocks[0]
+			if ret, ok := blk.Instrs[len(blk.Instrs)-1].(*ssa.Return); ok && len(ret.Results) == 1 {
+				sub := Env{}
+				for i, a := range e.Call.Args {
+					x, err := EvalInt(a, env)
+					if err != nil {
+						return 0, err
+					}
+					sub[cfgx.Expr(callee.Params[i])] = x
+				}
+				return EvalInt(ret.Results[0], sub)
+			}
+		}
+		return 0, fmt.Errorf("unsupported call %s", cfgx.Expr(v))
 	}
 	return 0, fmt.Errorf("unsupported operand %s (%T)", cfgx.Expr(v), v)
 }
